@@ -126,7 +126,9 @@ def rename_prog(node, m):
 
 class DFConfig:
     def __init__(self, size, depth, alphabet="full", kinds=KINDS, periph=0, top_items=3, ivar_after=True,
-                 renames=None, prologues=None, returns=None):
+                 renames=None, prologues=None, returns=None, nested_ranges=False, ranges_all=False):
+        self.nested_ranges = nested_ranges   # inside a for body, range(1 - i) / range(i) are in the range menu
+        self.ranges_all = ranges_all         # every range of the menu is explored (instead of deviation-bounded)
         self.renames = renames          # list of (label, mapping): every one is explored (ch.all)
         self.prologues = prologues      # labels of PROLOGUES explored exhaustively (ch.all) instead of by deviation
         self.returns = returns          # labels of RETURNS explored exhaustively
@@ -165,7 +167,12 @@ def df_driver(cfg):
                 els = block(depth + 1, ivar, False)
                 return [["if", cond, then, els]]
             if kind in ("for", "forb"):
-                rng = ch.choose("range", RANGES)[1]
+                menu = list(RANGES)
+                if ivar is not None and cfg.nested_ranges:
+                    # trip count of a nested loop that varies with the enclosing loop's variable: 1-i gives 1,0,0,...
+                    # trips (a zero-trip pass after one that ran), i gives 0,1,2,...
+                    menu += [("1-i", ["bin", "-", L(1), V(ivar)]), ("i", V(ivar))]
+                rng = (ch.all("range", menu) if cfg.ranges_all else ch.choose("range", menu))[1]
                 iv = "i" if state["for_depth"] == 0 else f"i{state['for_depth']}"
                 state["for_depth"] += 1
                 body = block(depth + 1, iv, True)
@@ -721,6 +728,12 @@ def enumerate_plan(tier, stats):
         fams.append(("df-mini-s4-d2-periph1", df_driver(DFConfig(size=4, depth=2, alphabet="mini", kinds=["if", "for", "while"])), 1))
         fams.append(("op-b1", op_driver(), 1))
         fams.append(("lit-pairs", lp_driver(), 0))
+        # loops nested in loops whose inner trip count varies between outer iterations, every return list: a seeded
+        # exposed-uses defect needed an inner loop that runs zero times after a pass in which it ran, and a variable
+        # that is dead after the outer loop
+        fams.append(("df-mini-s4-nestedloops", df_driver(DFConfig(size=4, depth=2, alphabet="mini", kinds=["for"],
+                                                                     returns=["u", "v", "u,v"], nested_ranges=True,
+                                                                     ranges_all=True, ivar_after=False)), 0))
     else:
         fams.append(("df-full-s2-periph1", df_driver(DFConfig(size=2, depth=1)), 1))
         fams.append(("df-full-s3-periph1", df_driver(DFConfig(size=3, depth=2, kinds=nowb, ivar_after=False)), 1))
@@ -728,6 +741,9 @@ def enumerate_plan(tier, stats):
         fams.append(("df-reduced-s5", df_driver(DFConfig(size=5, depth=2, alphabet="reduced", kinds=["if", "for", "while"])), 0))
         fams.append(("op-b2", op_driver(), 2))
         fams.append(("lit-pairs", lp_driver(), 0))
+        fams.append(("df-reduced-s5-nestedloops", df_driver(DFConfig(size=5, depth=2, alphabet="reduced", kinds=["for", "while"],
+                                                                        returns=["u", "v", "u,v"], nested_ranges=True,
+                                                                        ranges_all=True, ivar_after=False)), 1))
     import os
     only = os.environ.get("VERIF_C01_FAMS")
     if only:
